@@ -23,7 +23,7 @@ from harness.common import exc_name
 PID = "C10"
 TITLE = "Elements pass values they do not select through unchanged"
 LEAN_MODULES = ["LenaModel.Props.C10"]
-LEAN_SOURCES = ["LenaModel/Model/C10.lean", "LenaModel/Props/C10.lean"]
+LEAN_SOURCES = ["LenaModel/Model/C10.lean", "LenaModel/Lemmas/C10.lean", "LenaModel/Props/C10.lean"]
 DRIVER = "drivers/C10.lean"
 THEOREMS = [
     "Lena.C10.interleave_law",
@@ -58,6 +58,18 @@ THEOREMS = [
     "Lena.C10.iterateBins_state_untouched",
     "Lena.C10.mapBins_state_untouched",
     "Lena.C10.write_already_written",
+    "Lena.C10.toCSV_same_object_iff",
+    "Lena.C10.render_same_object_iff",
+    "Lena.C10.png_same_object_iff",
+    "Lena.C10.histToGraph_same_object_iff",
+    "Lena.C10.iterateBins_same_object_iff",
+    "Lena.C10.mapBins_same_object_iff",
+    "Lena.C10.mapGroup_same_object_iff",
+    "Lena.C10.pdf_unselected_step",
+    "Lena.C10.pdf_unselected_same_objects_in_order",
+    "Lena.C10.pdf_selected_multiset",
+    "Lena.C10.pdf_selected_independent",
+    "Lena.C10.pdf_loop_spec",
 ]
 TRUSTED = [
     "Lean 4.33.0 kernel; axioms limited to propext, Classical.choice, Quot.sound (audited by #print axioms on every run)",
@@ -345,6 +357,8 @@ def ref_selected(el, spec):
         return eval_sel(el["sel"], spec)
     if k == "mapgroup":
         return "group" in c and _has_iter(d)
+    if k == "pipe":
+        return any(ref_selected(st, spec) for st in el["stages"])
     raise ValueError(k)
 
 
@@ -540,8 +554,16 @@ def _make_selector(sel):
 _BIN_CLASSES = {"num": "int", "pair": "int", "hist": "histogram", "vec": "tuple"}
 
 
+_PDFTOPPM_STUB = """#!/bin/sh
+# stands for pdftoppm: pdftoppm <pdf> <base> -<format> -singlefile
+fmt="${3#-}"
+printf 'picture of %s' "$(basename "$1")" > "$2.$fmt"
+"""
+
+
 def make_element(el, root, tdir, clock):
     """the real lena element of a case; returns (element, cleanup)"""
+    import lena.core
     import lena.flow
     import lena.output
     import lena.output.latex_to_pdf
@@ -558,6 +580,34 @@ def make_element(el, root, tdir, clock):
         sel = el.get("sel")
         sd = None if sel is None else lena.flow.Selector(_make_selector(sel))
         return lena.output.RenderLaTeX(select_template=el["def"], template_dir=tdir, select_data=sd), nothing
+    if k == "pipe":
+        els, cleanups = [], []
+        for st in el["stages"]:
+            e, c = make_element(st, root, tdir, clock)
+            els.append(e)
+            cleanups.append(c)
+        def cleanup_all():
+            for c in cleanups:
+                c()
+        return lena.core.Sequence(*els), cleanup_all
+    if k == "png" and el.get("real"):
+        # a real process: the stub `pdftoppm` is found through PATH
+        bindir = os.path.join(tdir, "bin")
+        os.makedirs(bindir, exist_ok=True)
+        stub = os.path.join(bindir, "pdftoppm")
+        with open(stub, "w") as f:
+            f.write(_PDFTOPPM_STUB)
+        os.chmod(stub, 0o755)
+        old_path = os.environ.get("PATH", "")
+        os.environ["PATH"] = bindir + os.pathsep + old_path
+        def restore_path():
+            os.environ["PATH"] = old_path
+        return lena.output.PDFToPNG(format=el["format"], overwrite=el["ow"], verbose=False), restore_path
+    if k == "pdf" and el.get("real"):
+        # real processes: `cp tex pdf` stands for pdflatex
+        return lena.output.LaTeXToPDF(
+            overwrite=el["ow"], verbose=0,
+            create_command=lambda tex, out, outdir, ctx: ["/bin/sh", "-c", 'cp "$0" "$1"', tex, out]), nothing
     if k == "png":
         mod = lena.output.pdf_to_png
         old = mod.subprocess
@@ -690,6 +740,10 @@ def enc_data(o, root, text_kind=None):
     if isinstance(o, int):
         return {"k": "int", "v": o}
     if isinstance(o, str):
+        if text_kind == "*":
+            # a pipeline: a new string is a path below the root (made by Write) or a produced text
+            c = _canon_str(o, root)
+            return {"k": "str", "v": c} if c.startswith("$R") else {"k": "text", "kind": "*"}
         if text_kind:
             return {"k": "text", "kind": text_kind}
         return {"k": "str", "v": _canon_str(o, root)}
@@ -708,11 +762,13 @@ def enc_data(o, root, text_kind=None):
     return {"k": "other", "cls": type(o).__name__}
 
 
-def norm_model_data(d):
+def norm_model_data(d, pipe=False):
     """a model DATA object reduced to what enc_data shows"""
     k = d["k"]
     if k == "text":
-        return {"k": "text", "kind": d["kind"]}
+        return {"k": "text", "kind": "*" if pipe else d["kind"]}
+    if k == "str" and pipe and not d["v"].startswith("$R"):
+        return {"k": "text", "kind": "*"}
     if k == "graph":
         return {"k": "graph"}
     if k == "hist":
@@ -738,13 +794,13 @@ def _plain_cv(o):
     return o
 
 
-def norm_model_item(it):
+def norm_model_item(it, pipe=False):
     t = it["t"]
     if not isinstance(t, int):
         t = "new"
     out = {"t": t}
     if t == "new":
-        out["d"] = norm_model_data(it["d"])
+        out["d"] = norm_model_data(it["d"], pipe)
     c = it["c"]
     if c is None:
         out["c"] = None
@@ -794,7 +850,10 @@ def _run_once(case, specs, idxs, is_b):
     cleanup = lambda: None
     try:
         prepare_fs(case.get("fs", {}), root)
-        for name in el.get("templates", []):
+        tnames = set(el.get("templates", []))
+        for st in el.get("stages", []):
+            tnames.update(st.get("templates", []))
+        for name in sorted(tnames):
             with open(os.path.join(tdir, name), "w") as f:
                 f.write(TEMPLATES[name])
         flow = [build_value(s, root) for s in specs]
@@ -831,7 +890,7 @@ def _run_once(case, specs, idxs, is_b):
                 err = exc_name(e)
         pulled = min(len(marks), len(flow))
         exhausted = len(marks) == len(flow) + 1
-        text_kind = {"tocsv": "csv", "render": "tex"}.get(el["k"])
+        text_kind = {"tocsv": "csv", "render": "tex", "pipe": "*"}.get(el["k"])
 
         def enc(o):
             i = ids.get(id(o))
@@ -914,13 +973,15 @@ def model_requests(case):
     a_idx = [i for i, p in enumerate(pat) if p]
     b_idx = [i for i, p in enumerate(pat) if not p]
     el = dict(case["el"])
+    if el.get("real"):
+        return []          # real converter processes: the oracle alone (their timing is not under control)
     return [{"el": el, "fs": model_fs(case.get("fs", {})),
              "A": [model_item(s, i) for s, i in zip(A, a_idx)],
              "B": [model_item(s, i) for s, i in zip(B, b_idx)], "pat": pat}]
 
 
-def _cmp_run(name, impl, mod, is_pdf):
-    mb = [[norm_model_item(x) for x in blk] for blk in mod["blocks"]]
+def _cmp_run(name, impl, mod, is_pdf, pipe=False):
+    mb = [[norm_model_item(x, pipe) for x in blk] for blk in mod["blocks"]]
     ib = impl["blocks"]
     if is_pdf:
         ib = [[dict(x, **{"pass": isinstance(x["t"], int)}) for x in blk] for blk in ib]
@@ -940,8 +1001,15 @@ def _cmp_run(name, impl, mod, is_pdf):
     if it != mt:
         return f"{name}: tail impl {it} vs model {mt}"
     mfs = canon_model_fs(mod["fs"])
-    if impl["fs"] != mfs:
-        return f"{name}: file system impl {impl['fs']} vs model {mfs}"
+    ifs = impl["fs"]
+    if pipe:
+        # a produced text written to a file: the model does not know its characters
+        ifs = {"dirs": ifs["dirs"], "files": {p: ("TEXT" if mfs["files"].get(p, "").startswith("TEXT:") else c)
+                                              for p, c in ifs["files"].items()}}
+        mfs = {"dirs": mfs["dirs"], "files": {p: ("TEXT" if c.startswith("TEXT:") else c)
+                                              for p, c in mfs["files"].items()}}
+    if ifs != mfs:
+        return f"{name}: file system impl {ifs} vs model {mfs}"
     return None
 
 
@@ -956,7 +1024,9 @@ def compare(case, res, replies):
     ref_sel = [ref_selected(case["el"], s) for s in specs]
     if m["sel"] != ref_sel:
         return f"selection predicate: model {m['sel']} vs documented rule {ref_sel}"
-    msg = _cmp_run("interleaved flow", res["full"], m["run"], is_pdf) or _cmp_run("A alone", res["a"], m["a"], is_pdf)
+    pipe = case["el"]["k"] == "pipe"
+    msg = (_cmp_run("interleaved flow", res["full"], m["run"], is_pdf, pipe)
+           or _cmp_run("A alone", res["a"], m["a"], is_pdf, pipe))
     if msg:
         return msg
     if not is_pdf:
@@ -1397,6 +1467,41 @@ def _configs(tier):
         ]
     for inner in ("id", "dup", "drop", "number", "count", "raise", "yieldraise", "last"):
         out.append(({"k": "mapgroup", "inner": inner}, {}, a_group, b_group))
+
+    # ---- real converter processes (oracle only): `cp` for pdflatex, a PATH stub for pdftoppm
+    out.append(({"k": "pdf", "ow": False, "sched": None, "real": True}, pfs, a_pdf, b_pdf))
+    out.append(({"k": "png", "format": "png", "ow": False, "real": True}, gfs, a_png, b_png))
+
+    # ---- pipelines: Sequence of selective elements; a value is unselected if no stage selects it
+    def pipe(stages, makers):
+        el = {"k": "pipe", "stages": stages}
+        def cands(ids, rng):
+            vals = common_b(ids, rng)
+            for mk in makers:
+                vals += mk(ids, rng)
+            return vals
+        def a(ids, rng):
+            return [v for v in cands(ids, rng) if ref_selected(el, v)]
+        def b(ids, rng):
+            return [v for v in cands(ids, rng) if not ref_selected(el, v)]
+        return el, a, b
+    R = {"k": "render", "def": "t1.tex", "templates": ["t1.tex", "t2.tex"], "sel": None}
+    pipes = [
+        ([{"k": "tocsv"}, W("$R", False, False)], [a_tocsv, b_tocsv, a_write, b_write]),
+        ([{"k": "h2g"}, {"k": "tocsv"}, W("$R/sub", False, False)], [a_h2g, b_h2g, b_tocsv]),
+        ([{"k": "tocsv"}, W("$R", False, False), R, W("$R", False, True)], [a_tocsv, b_tocsv, a_render, b_render]),
+        ([{"k": "iterbins", "bins": ["hist"], "default": True}, {"k": "h2g"}], [hists(["hist", "num"]), b_h2g]),
+        ([{"k": "mapbins", "bins": allk, "default": True, "inner": "dup"}, {"k": "iterbins", "bins": ["hist"], "default": True},
+          {"k": "tocsv"}], [hists(["hist", "num", "vec"]), b_tocsv]),
+        ([W("$R", False, False), W("$R", False, False)], [a_write, b_write]),
+        ([{"k": "runif", "sel": {"cls": "int"}, "inner": "number"}, {"k": "mapgroup", "inner": "id"}],
+         [extra_runif, a_group, b_group]),
+        ([{"k": "runif", "sel": {"cls": "histogram"}, "inner": "id"}, {"k": "h2g"}, {"k": "tocsv"}],
+         [extra_runif, a_h2g, b_h2g]),
+    ]
+    for stages, makers in pipes:
+        el, a, b = pipe(stages, makers)
+        out.append((el, wfs if any(st["k"] == "write" for st in stages) else {}, a, b))
     return out
 
 
@@ -1438,6 +1543,26 @@ def _uniq_pdf(A):
     return out
 
 
+def _pipe_fix(A, ids):
+    """pipelines with Write: every selected value but the first gets a file name of its own (two produced texts
+    written to one path would be compared character by character, which the payload abstraction cannot follow)"""
+    out, first = [], True
+    for v in A:
+        c = v.get("c")
+        has_name = isinstance(c, dict) and isinstance(c.get("output"), dict) and "filename" in c["output"]
+        if not has_name:
+            if first:
+                first = False
+            elif c is None:
+                v = dict(v, c={"output": {"filename": "auto%d" % ids.next()}})
+            elif isinstance(c.get("output", {}), dict):
+                c = copy.deepcopy(c)
+                c.setdefault("output", {})["filename"] = "auto%d" % ids.next()
+                v = dict(v, c=c)
+        out.append(v)
+    return out
+
+
 def _mk_case(el, fs, A, B, pat, rng):
     el = dict(el)
     if el["k"] == "pdf":
@@ -1446,34 +1571,68 @@ def _mk_case(el, fs, A, B, pat, rng):
     return {"el": el, "fs": fs, "A": A, "B": B, "pat": pat}
 
 
+def _prepare(el, A, B, ids):
+    A, B = _one_none(_refresh(A, ids)), _one_none(_refresh(B, ids))
+    if el["k"] == "pdf":
+        A = _uniq_pdf(A)
+    if el["k"] == "pipe" and any(st["k"] == "write" for st in el["stages"]):
+        A = _pipe_fix(A, ids)
+        # re-sort: a file name may turn a value into one that a stage selects
+        A = [v for v in A if ref_selected(el, v)]
+    return A, B
+
+
 def gen_cases(ctx):
     rng = ctx.rng
     cases = []
     quick = ctx.tier == "quick"
-    draws = 1 if quick else 6
+    draws = 2 if quick else 12
     sizes = [(a, b) for a in range(4) for b in range(4)]
-    for el, fs, mk_a, mk_b in _configs(ctx.tier):
+    configs = _configs(ctx.tier)
+    if quick:
+        # RunIf has 6 selectors x 9 inner sequences: keep a cross (every selector, every inner sequence) and a sample
+        keep = []
+        for cfg in configs:
+            el = cfg[0]
+            if el["k"] != "runif" or el["sel"] == {"cls": "int"} or el["inner"] in ("number", "first") \
+                    or isinstance(el["inner"], dict) or rng.random() < 0.15:
+                keep.append(cfg)
+        configs = keep
+    for el, fs, mk_a, mk_b in configs:
+        real = bool(el.get("real"))
+        # 1. every value of both palettes at least once, before and after a value of the other kind
+        ids = _Ids()
+        pal_a, pal_b = mk_a(ids, rng), mk_b(ids, rng)
+        if not real:
+            for which, pal, other in ((True, pal_a, pal_b), (False, pal_b, pal_a)):
+                for v in pal:
+                    v = {k: x for k, x in copy.deepcopy(v).items() if k != "_e"}
+                    o = _draw(rng, other, 1)
+                    A, B = ([v], o) if which else (o, [v])
+                    A, B = _prepare(el, A, B, ids)
+                    if len(A) + len(B) < 2 and (pal_a and pal_b):
+                        continue
+                    for pat in _patterns(len(A), len(B)):
+                        cases.append(_mk_case(el, fs, A, B, pat, rng))
+        # 2. all interleavings of drawn lists with |A|, |B| <= 3
         for (na, nb) in sizes:
-            for _ in range(draws):
+            for d in range(1 if real else draws):
+                if real and (na + nb > 4 or na == 0):
+                    continue
                 ids = _Ids()
                 A = _draw(rng, mk_a(ids, rng), na) if na else []
                 B = _draw(rng, mk_b(ids, rng), nb) if nb else []
-                # re-draw payloads so that equal picks are still different values
-                A, B = _one_none(_refresh(A, ids)), _one_none(_refresh(B, ids))
-                if el["k"] == "pdf":
-                    A = _uniq_pdf(A)
-                if el["k"] == "runif" and quick and rng.random() < 0.5 and (na, nb) not in ((2, 2), (3, 1), (2, 1)):
-                    continue
+                A, B = _prepare(el, A, B, ids)
                 for pat in _patterns(len(A), len(B)):
                     cases.append(_mk_case(el, fs, A, B, pat, rng))
-        if not quick:
-            for _ in range(12):
+        # 3. longer flows, random interleavings
+        if not quick and not real:
+            for _ in range(25):
                 ids = _Ids()
                 na, nb = rng.randint(1, 6), rng.randint(1, 6)
-                A = _one_none(_refresh(_draw(rng, mk_a(ids, rng), na), ids))
-                B = _one_none(_refresh(_draw(rng, mk_b(ids, rng), nb), ids))
-                if el["k"] == "pdf":
-                    A = _uniq_pdf(A)
+                A = _draw(rng, mk_a(ids, rng), na)
+                B = _draw(rng, mk_b(ids, rng), nb)
+                A, B = _prepare(el, A, B, ids)
                 for _ in range(4):
                     pat = [True] * len(A) + [False] * len(B)
                     rng.shuffle(pat)
